@@ -43,15 +43,20 @@ use barter::{
             trading::TradingState,
         },
     },
+    EngineEvent,
     error::BarterError,
     risk::DefaultRiskManager,
     statistic::time::Daily,
     strategy::{algo::AlgoStrategy, close_positions::ClosePositionsStrategy, on_disconnect::OnDisconnectStrategy, on_trading_disabled::OnTradingDisabled},
-    system::config::ExecutionConfig,
+    system::{
+        builder::{AuditMode, EngineFeedMode, SystemArgs, SystemBuilder},
+        config::ExecutionConfig,
+    },
 };
 use barter_data::{
+    error::DataError,
     event::{DataKind, MarketEvent},
-    streams::consumer::MarketStreamEvent,
+    streams::{consumer::{MarketStreamEvent, MarketStreamResult}, reconnect::stream::ReconnectingStream},
     subscription::trade::PublicTrade,
 };
 use barter_execution::{
@@ -88,6 +93,8 @@ const L_ORDER: &str = "C20.bounded.every_event_once_in_order";
 const L_SKIP: &str = "C20.bounded.nothing_skipped_before_shutdown";
 const L_CONC: &str = "C20.bounded.concurrent_equals_alone";
 const L_OWN: &str = "C20.bounded.summary_from_own_engine";
+const L_FULL: &str = "C20.bounded.summary_only_from_a_fully_consumed_dataset";
+const L_ERRREC: &str = "C20.bounded.error_record_does_not_end_the_feed";
 
 /// KNOWN FINDING on the unchanged tree (strict clause only with VX_C20_KNOWN=1): with `MarketDataInMemory` the fills a backtest's
 /// engine gets to see - hence final positions, balances and realised PnL in its summary - are NOT a function of (data,
@@ -101,6 +108,8 @@ fn known() -> bool { std::env::var("VX_C20_KNOWN").is_ok() || STRICT_PROBE.load(
 type State = EngineState<Recorder, DefaultInstrumentMarketData>;
 type Risk = DefaultRiskManager<State>;
 type Ev = MarketStreamEvent<InstrumentIndex, DataKind>;
+/// a record of a RECORDED market stream (the on-disk format of the historic-data example): items, recoverable errors, reconnect notices
+type RecEv = MarketStreamResult<InstrumentIndex, DataKind>;
 type Eng = Engine<HistoricalClock, State, MultiExchangeTxMap, EveryK, Risk>;
 
 fn t(s: i64) -> DateTime<Utc> { DateTime::<Utc>::from_timestamp(1_700_000_000 + s, 0).unwrap() }
@@ -305,6 +314,88 @@ impl BacktestMarketData for SlowData {
     }
 }
 
+// ------------------------------------------------------------------------------------------------- corrupt market data
+/// a lazily decoded (file-backed) dataset with one corrupt record: the stream yields the records in order and PANICS when it reaches
+/// record `at` (as a `serde_json::from_str(line).unwrap()` of a user provided stream would). `stepwise`: the stream yields to the
+/// scheduler before every record (so the engine digests what was forwarded so far), otherwise it is ready at once like `stream::iter`.
+/// `only`: just the stream handed out `only`-th (= of the `only`-th backtest of a batch) hits the corrupt record.
+#[derive(Debug, Clone)]
+struct CorruptData { events: Arc<Vec<Ev>>, at: Option<usize>, stepwise: bool, only: Option<usize>, streams: Arc<AtomicUsize> }
+impl BacktestMarketData for CorruptData {
+    type Kind = DataKind;
+    async fn time_first_event(&self) -> Result<DateTime<Utc>, BarterError> { Ok(t(0)) }
+    async fn stream(&self) -> Result<impl Stream<Item = Ev> + Send + 'static, BarterError> {
+        let s = self.streams.fetch_add(1, Ordering::SeqCst);
+        let at = if self.only.is_none_or(|o| o == s) { self.at } else { None };
+        let (events, stepwise) = (self.events.clone(), self.stepwise);
+        Ok(futures::stream::unfold(0usize, move |i| {
+            let events = events.clone();
+            async move {
+                if stepwise { tokio::task::yield_now().await; }
+                if i >= events.len() { return None; }
+                if Some(i) == at { panic!("record {i} of the market dataset cannot be decoded"); }
+                Some((events[i].clone(), i + 1))
+            }
+        }))
+    }
+}
+
+// ------------------------------------------------------------------------------------------------- recorded market data
+/// how many recoverable error records stand in front of record i (slot i < len) and behind the last record (slot len)
+fn error_slots(len: usize, layout: usize, reconnect_at: &[usize]) -> Vec<usize> {
+    let mut v = vec![0usize; len + 1];
+    match layout % 8 {
+        1 => v[0] = 1,                                             // the very first record of the recording is an error
+        2 => v[len] = 1,                                           // the very last one
+        3 => v[len / 2] = 1,                                       // one in the middle
+        4 => { v[0] += 1; v[len / 2] += 1; v[len] += 1; }          // first, middle and last
+        5 => { v[len / 2] += 2; for r in reconnect_at { v[*r] += 1; v[*r + 1] += 1; } } // two in a row; around every reconnect notice
+        6 => for (i, x) in v.iter_mut().enumerate() { if i % 3 == 2 { *x = 1; } },
+        7 => for x in v.iter_mut() { *x = 1; },                    // between any two records, in front and behind
+        _ => {}
+    }
+    v
+}
+fn layout_name(layout: usize) -> &'static str {
+    match layout % 8 { 1 => "one error record in front of the first record", 2 => "one error record behind the last record", 3 => "one error record in front of record len/2", 4 => "error records in front of the first record, in front of record len/2 and behind the last record",
+        5 => "two error records in a row in front of record len/2, one directly in front of and one directly behind every reconnect notice", 6 => "an error record in front of every record i with i%3==2", 7 => "an error record in front of every record and behind the last one", _ => "no error record" }
+}
+
+/// the dataset as a live market stream would have been RECORDED (`Vec<MarketStreamResult>`): every item `Event::Item(Ok(..))`, the
+/// reconnect notices as they are, plus recoverable error records `Event::Item(Err(DataError::Socket(..)))` (not market events)
+fn recorded(evs: &[Ev], layout: usize) -> Vec<RecEv> {
+    let reconnect_at: Vec<usize> = evs.iter().enumerate().filter(|(_, e)| matches!(e, MarketStreamEvent::Reconnecting(_))).map(|(i, _)| i).collect();
+    let slots = error_slots(evs.len(), layout, &reconnect_at);
+    let (mut out, mut n_err) = (vec![], 0usize);
+    for i in 0..=evs.len() {
+        for _ in 0..slots[i] { out.push(MarketStreamResult::Item(Err(DataError::Socket(format!("recorded error {n_err}: failed to deserialise exchange message"))))); n_err += 1; }
+        if let Some(e) = evs.get(i) { out.push(match e { MarketStreamEvent::Item(m) => MarketStreamResult::Item(Ok(m.clone())), MarketStreamEvent::Reconnecting(ex) => MarketStreamResult::Reconnecting(*ex) }); }
+    }
+    // through the on-disk format of the historic-data example and back
+    match serde_json::to_string(&out).ok().and_then(|json| serde_json::from_str::<Vec<RecEv>>(&json).ok()) {
+        Some(back) if back == out => back,
+        _ => { eprintln!("note: recorded dataset did not survive the JSON round trip, using it as built"); out }
+    }
+}
+fn rec_short(recs: &[RecEv]) -> String {
+    let s: Vec<String> = recs.iter().map(|r| match r { MarketStreamResult::Item(Ok(m)) => match &m.kind { DataKind::Trade(tr) => tr.id.clone(), _ => "?".into() }, MarketStreamResult::Item(Err(_)) => "E".into(), MarketStreamResult::Reconnecting(ex) => if *ex == K { "K".into() } else { "B".into() } }).collect();
+    if s.len() > 60 { format!("[{} .. {}] ({} records)", s[..30].join(","), s[s.len() - 15..].join(","), s.len()) } else { format!("[{}]", s.join(",")) }
+}
+
+/// the pipeline of the historic-data example: `stream::iter(recorded).with_error_handler(log)` - the REAL `with_error_handler`
+fn recorded_stream(records: Arc<Vec<RecEv>>, handled: Arc<AtomicUsize>) -> impl Stream<Item = Ev> + Send + 'static {
+    futures::stream::iter((0..records.len()).map(move |i| records[i].clone())).with_error_handler(move |_error: DataError| { handled.fetch_add(1, Ordering::SeqCst); })
+}
+
+#[derive(Debug, Clone)]
+struct RecordedData { records: Arc<Vec<RecEv>>, handled: Arc<AtomicUsize> }
+impl RecordedData { fn new(evs: &[Ev], layout: usize) -> Self { RecordedData { records: Arc::new(recorded(evs, layout)), handled: Arc::new(AtomicUsize::new(0)) } } }
+impl BacktestMarketData for RecordedData {
+    type Kind = DataKind;
+    async fn time_first_event(&self) -> Result<DateTime<Utc>, BarterError> { Ok(t(0)) }
+    async fn stream(&self) -> Result<impl Stream<Item = Ev> + Send + 'static, BarterError> { Ok(recorded_stream(self.records.clone(), self.handled.clone())) }
+}
+
 // ------------------------------------------------------------------------------------------------- fixtures
 struct Fixture { instruments: IndexedInstruments, executions: Vec<ExecutionConfig>, asset_names: Vec<String> }
 const INIT_QUOTE: i64 = 1_000_000;
@@ -440,10 +531,16 @@ impl Obs {
 }
 
 #[derive(Clone, Copy, Debug, PartialEq)]
-enum Feed { InMemory, Paced, Slow { salt: usize } }
+enum Feed {
+    InMemory, Paced, Slow { salt: usize },
+    /// `CorruptData`: the stream panics when it reaches record `at` (of the stream handed out `only`-th, or of every stream)
+    Corrupt { at: Option<usize>, stepwise: bool, only: Option<usize> },
+    /// `RecordedData`: the dataset in the recorded format with recoverable error records (`error_slots(len, layout)`)
+    Recorded { layout: usize },
+}
 impl Feed {
     /// feeds with which the fills a backtest's engine sees are a function of (dataset, k) alone
-    fn deterministic(self) -> bool { !matches!(self, Feed::InMemory) }
+    fn deterministic(self) -> bool { matches!(self, Feed::Paced | Feed::Slow { .. }) }
     /// how long (on the clock of the runtime: virtual seconds for the slow feed) a batch may take
     fn limit_s(self) -> u64 { if matches!(self, Feed::Slow { .. }) { 3_600 } else { 20 } }
 }
@@ -469,6 +566,8 @@ fn run_batch(rt: &tokio::runtime::Runtime, on_worker: bool, fx: &Fixture, evs: &
         Feed::InMemory => go!(MarketDataInMemory::new(evs.clone())),
         Feed::Paced => go!(PacedData { events: evs.clone(), reg: reg.clone(), n_exec: fx.executions.len() }),
         Feed::Slow { salt } => go!(SlowData { events: evs.clone(), salt, streams: Arc::new(AtomicUsize::new(0)) }),
+        Feed::Corrupt { at, stepwise, only } => go!(CorruptData { events: evs.clone(), at, stepwise, only, streams: Arc::new(AtomicUsize::new(0)) }),
+        Feed::Recorded { layout } => go!(RecordedData::new(evs, layout)),
     };
     let (sums, error): (Vec<BacktestSummary<Daily>>, Option<String>) = match res {
         Ok(Ok(Ok(Ok(s)))) => (s, None),
@@ -569,6 +668,7 @@ fn combination(st: &mut St, fx: &Fixture, rt_name: &str, rt: &tokio::runtime::Ru
             Feed::InMemory => "MarketDataInMemory".to_string(),
             Feed::Paced => "PacedData (same events, released as the engine digests them)".to_string(),
             Feed::Slow { salt } => format!("SlowData (same events; the stream of the s-th backtest sleeps a VIRTUAL 2000+((5i+3s+{salt})%6)*1000 ms before its event #i and before ending: {} s in all for the first one)", (0..=evs.len()).map(|i| slow_delay_ms(salt, 0, i)).sum::<u64>() / 1000),
+            Feed::Corrupt { .. } | Feed::Recorded { .. } => feed_name(feed, evs.len()),
         };
         format!("runtime {rt_name}; market data {data} with {n} items + {} reconnect notices (dataset variant {variant}: item i = trade #i on instrument {:?}[(i+{variant})%9]; stream reconnect notices K = Kraken (market data only), B = BinanceSpot (mock execution link): [{}] before the first item, [{}] before item {}, [{}] after the last item, K before items i%17==11{}; in all {}); backtests (id, k = order on every k-th item) {jobs:?} run {how}; repetition {rep}",
             exp.iter().filter(|e| matches!(e, Exp::D(_))).count(), [0, 1, 0, 2, 1, 0, 0, 2, 1], names(lead), names(if n >= 2 { mid } else { &[] }), n / 2, names(tail), if variant % 2 == 1 { " and before item 1" } else { "" }, seq_short(exp))
@@ -598,6 +698,145 @@ fn combination(st: &mut St, fx: &Fixture, rt_name: &str, rt: &tokio::runtime::Ru
             let mut a = a.clone();
             if let Some(i) = a.inner.as_mut() { for r in i.log.iter_mut() { if let Rec::Order(c) | Rec::Response { cid: c, .. } = r { *c = c.replacen(&a.tag, &o.tag, 1); } } }
             check_pair(st, feed, &a, o, input);
+        }
+    }
+}
+
+// ------------------------------------------------------------------------------------------------- corrupt record / recorded error records
+fn feed_name(feed: Feed, len: usize) -> String {
+    match feed {
+        Feed::Corrupt { at, stepwise, only } => format!("CorruptData (own BacktestMarketData: lazily decoded records, {}; {})", if stepwise { "yielding to the scheduler before every record" } else { "ready at once like stream::iter" },
+            match at { None => "no corrupt record".to_string(), Some(a) => format!("the stream {} PANICS when it reaches record #{a} of {len} (0-based; reconnect notices are records too)", match only { None => "of every backtest".to_string(), Some(o) => format!("handed out {o}-th (0-based: backtest #{o} of the batch) - the streams of the others are healthy") }) }),
+        Feed::Recorded { layout } => format!("RecordedData (own BacktestMarketData: the dataset as RECORDED - Vec<MarketStreamResult> through JSON as in the historic-data example: items Event::Item(Ok(..)), the notices, and recoverable error records Event::Item(Err(DataError::Socket(..))): {} - piped through the real ReconnectingStream::with_error_handler)", layout_name(layout)),
+        other => format!("{other:?}"),
+    }
+}
+fn seen_of(inner: &Inner) -> Vec<Exp> { inner.log.iter().filter_map(|r| match r { Rec::Market(i) => Some(Exp::M(*i)), Rec::Disconnect(ex) => Some(Exp::D(*ex)), _ => None }).collect() }
+
+/// the clause both scenarios share: a backtest that RETURNS a summary has fed every event of its dataset to its engine, once and in order
+/// (a backtest that returns an error / panics claims nothing). `must_succeed`: the dataset is healthy, so there has to be a summary.
+fn check_fed(st: &mut St, label: &'static str, b: &Batch, exp: &[Exp], must_succeed: bool, input: &dyn Fn() -> String) {
+    if must_succeed { if let Some(e) = &b.error { st.fail(if label == L_ERRREC { L_ERRREC } else { L_SKIP }, input, e.clone(), format!("{} summaries, each of an engine that was fed {}", b.obs.len(), seq_short(exp))); } }
+    for o in &b.obs {
+        let Some(sum) = &o.sum else { continue; };
+        // (an engine that was never fed anything never consulted its strategy and leaves no owned log; run alone, the only log there is is its own)
+        let inner = o.inner.as_ref().or(if b.obs.len() == 1 && b.stray.len() == 1 { b.stray.first() } else { None });
+        let seen = inner.map(seen_of).unwrap_or_default();
+        if seen != exp {
+            let how = if seen.len() < exp.len() && exp[..seen.len()] == seen[..] { format!("only the first {} of the {} dataset events", seen.len(), exp.len()) } else { format!("{} events for the {} dataset events", seen.len(), exp.len()) };
+            st.fail(label, input, format!("backtest {} (k={}) returned Ok(summary: realised PnL {:?}, end balances {:?}) although its engine had been fed {how} when it was shut down: {}", o.tag, o.k, sum.pnl.iter().map(|p| p.1).collect::<Vec<_>>(), sum.bal.iter().map(|b| b.1).collect::<Vec<_>>(), seq_short(&seen)),
+                format!("{}a summary of an engine that was fed every dataset event once, in dataset order, before the shutdown: {}", if must_succeed { "" } else { "no summary at all (Err / panic), or " }, seq_short(exp)));
+        }
+    }
+}
+
+/// the historic-data example itself: SystemBuilder + the recorded stream through `with_error_handler` + `shutdown_after_backtest`;
+/// returns the log of the engine handed back and the number of error records the handler was shown
+fn run_system(rt: &tokio::runtime::Runtime, on_worker: bool, fx: &Fixture, records: Arc<Vec<RecEv>>, k: usize, mode: EngineFeedMode) -> Result<(Inner, usize), String> {
+    let (instruments, executions) = (fx.instruments.clone(), fx.executions.clone());
+    let handled = Arc::new(AtomicUsize::new(0));
+    let h = handled.clone();
+    let fut = async move {
+        let global = Recorder { reg: Arc::new(Registry::default()), ctx: Arc::new(Ctx::default()) };
+        let args = SystemArgs::new(&instruments, executions, HistoricalClock::new(t(0)), EveryK::new("sys", k), Risk::default(), recorded_stream(records, h), global, DefaultInstrumentMarketData::default);
+        let build = SystemBuilder::new(args).engine_feed_mode(mode).audit_mode(AuditMode::Disabled).trading_state(TradingState::Enabled).build::<EngineEvent, _>().map_err(|e| format!("SystemBuilder::build failed: {e}"))?;
+        let system = build.init().await.map_err(|e| format!("SystemBuild::init failed: {e}"))?;
+        let (engine, _audit): (Eng, _) = system.shutdown_after_backtest().await.map_err(|e| format!("shutdown_after_backtest returned an error: {e}"))?;
+        Ok::<Inner, String>(lock(&engine.state.global.ctx.inner).clone())
+    };
+    let fut = async move { tokio::time::timeout(Duration::from_secs(20), fut).await };
+    match catch_unwind(AssertUnwindSafe(|| if on_worker { rt.block_on(async { rt.spawn(fut).await }) } else { Ok(rt.block_on(fut)) })) {
+        Ok(Ok(Ok(r))) => r.map(|i| (i, handled.load(Ordering::SeqCst))),
+        Ok(Ok(Err(_))) => Err("the system did not finish within 20 s".into()),
+        Ok(Err(e)) => Err(format!("system task failed: {e}")),
+        Err(_) => Err("panic while running the system".into()),
+    }
+}
+
+/// 1. a market stream that PANICS at record k: no summary may be handed out for a prefix of the dataset;
+/// 2. a recorded dataset with recoverable error records: they are not market events and do not end the feed
+fn corrupt_and_recorded(st: &mut St, fx: &Fixture, mt: &tokio::runtime::Runtime, ct: &tokio::runtime::Runtime, thorough: bool, rng: &mut Rng) {
+    let started = Instant::now();
+    let budget = Duration::from_secs(if thorough { 30 } else { 8 });
+    let rts: [(&str, &tokio::runtime::Runtime, bool); 3] = [("multi-thread (4 workers)", mt, true), ("multi-thread, backtests polled on the blocking thread", mt, false), ("current-thread", ct, false)];
+    let describe = |rt_name: &str, what: String, n: usize, variant: usize, exp: &[Exp], how: String| format!("runtime {rt_name}; market data {what}; dataset variant {variant} with {n} items + {} reconnect notices (item i = trade #i; K = Kraken, B = BinanceSpot notices): {}; {how}", exp.iter().filter(|e| matches!(e, Exp::D(_))).count(), seq_short(exp));
+    let jobs_of = |ks: &[usize]| -> Vec<(String, usize)> { ks.iter().enumerate().map(|(j, k)| (format!("b{j}k{k}"), *k)).collect() };
+    // (a mid-sized dataset first: the first witness reported is then an illustrative one)
+    let sizes: &[usize] = if thorough { &[7, 1, 2, 3, 12, 30, 64, 150] } else { &[7, 1, 2, 30] };
+    let rec_sizes: &[usize] = if thorough { &[7, 0, 1, 2, 3, 12, 30, 64] } else { &[7, 0, 1, 2, 30] };
+    for round in 0..if thorough { 6 } else { 1 } {
+        // ---- 1. corrupt record
+        for (si, n) in sizes.iter().enumerate() {
+            let variant = round + si + 1;
+            let (evs, exp) = dataset(*n, variant);
+            let (evs, len) = (Arc::new(evs), exp.len());
+            let mut ats: Vec<Option<usize>> = vec![None, Some(len / 2), Some(0), Some(len - 1)];
+            if thorough { ats.extend([Some(1.min(len - 1)), Some(len.saturating_sub(2)), Some(rng.below(len as u64) as usize)]); }
+            let mut uniq = vec![];
+            for a in ats { if !uniq.contains(&a) { uniq.push(a); } }
+            for at in uniq {
+                for stepwise in [false, true] {
+                    for (ri, (rt_name, rt, on_worker)) in rts.iter().enumerate() {
+                        let k = 1 + (si + ri + stepwise as usize + round) % 3;
+                        // alone
+                        let feed = Feed::Corrupt { at, stepwise, only: None };
+                        let jobs = jobs_of(&[k]);
+                        let b = run_batch(rt, *on_worker, fx, &evs, feed, &jobs, false);
+                        st.n += 1;
+                        check_fed(st, L_FULL, &b, &exp, at.is_none(), &|| describe(rt_name, feed_name(feed, len), *n, variant, &exp, format!("backtests (id, k = order on every k-th item) {jobs:?} run ALONE (backtest)")));
+                        // concurrently: every stream corrupt / only the stream of one backtest
+                        if ri == 1 && !thorough { continue; }
+                        let jobs = jobs_of(&[k, 1 + k % 3, k]);
+                        for only in [None, Some((si + ri) % jobs.len())] {
+                            if at.is_none() && only.is_some() { continue; }
+                            let feed = Feed::Corrupt { at, stepwise, only };
+                            let b = run_batch(rt, *on_worker, fx, &evs, feed, &jobs, true);
+                            st.n += 1;
+                            check_fed(st, L_FULL, &b, &exp, at.is_none(), &|| describe(rt_name, feed_name(feed, len), *n, variant, &exp, format!("backtests (id, k) {jobs:?} run CONCURRENTLY (run_backtests)")));
+                        }
+                        if started.elapsed() > budget { return; }
+                    }
+                }
+            }
+        }
+        // ---- 2. recorded dataset with recoverable error records
+        for (si, n) in rec_sizes.iter().enumerate() {
+            let variant = round + si + 2;
+            let (evs, exp) = dataset(*n, variant);
+            let evs = Arc::new(evs);
+            for layout in [0usize, 3, 1, 2, 4, 5, 6, 7] {
+                let records = Arc::new(recorded(&evs, layout));
+                let n_err = records.iter().filter(|r| matches!(r, MarketStreamResult::Item(Err(_)))).count();
+                let feed = Feed::Recorded { layout };
+                let what = || format!("{}; the recording (E = error record): {}", feed_name(feed, evs.len()), rec_short(&records));
+                for (ri, (rt_name, rt, on_worker)) in rts.iter().enumerate() {
+                    if !thorough && ri != (si + layout) % 3 && ri != (si + layout + 1) % 3 { continue; }
+                    let k = 1 + (si + ri + layout + round) % 3;
+                    // the real `backtest`, alone and concurrently over the shared recording
+                    let jobs = jobs_of(&[k]);
+                    let b = run_batch(rt, *on_worker, fx, &evs, feed, &jobs, false);
+                    st.n += 1;
+                    check_fed(st, L_ERRREC, &b, &exp, true, &|| describe(rt_name, what(), *n, variant, &exp, format!("backtests (id, k) {jobs:?} run ALONE (backtest)")));
+                    let jobs = jobs_of(&[k, 1 + k % 3, k]);
+                    let b = run_batch(rt, *on_worker, fx, &evs, feed, &jobs, true);
+                    st.n += 1;
+                    check_fed(st, L_ERRREC, &b, &exp, true, &|| describe(rt_name, what(), *n, variant, &exp, format!("backtests (id, k) {jobs:?} run CONCURRENTLY (run_backtests)")));
+                    // the historic-data example: a System built by SystemBuilder, shut down by shutdown_after_backtest
+                    let mode = if (si + ri + layout + round) % 2 == 0 { EngineFeedMode::Stream } else { EngineFeedMode::Iterator };
+                    let r = run_system(rt, *on_worker, fx, records.clone(), k, mode.clone());
+                    st.n += 1;
+                    let input = &|| describe(rt_name, what(), *n, variant, &exp, format!("a System built by SystemBuilder (EngineFeedMode::{mode:?}, AuditMode::Disabled, strategy k={k}) on stream::iter(recording).with_error_handler(..), then System::shutdown_after_backtest"));
+                    match r {
+                        Err(e) => st.fail(L_ERRREC, input, e, format!("Ok(engine) - an engine that was fed {}", seq_short(&exp))),
+                        Ok((inner, handled)) => {
+                            let seen = seen_of(&inner);
+                            if seen != exp { st.fail(L_ERRREC, input, format!("shutdown_after_backtest returned Ok(engine), and that engine had been fed {} events for the {} market events / notices of the recording: {} (the error handler was shown {handled} of the {n_err} error records)", seen.len(), exp.len(), seq_short(&seen)),
+                                format!("every OK market event and notice of the recording once, in order (error records are not market events and do not end the feed): {}", seq_short(&exp))); }
+                        }
+                    }
+                    if started.elapsed() > budget { return; }
+                }
+            }
         }
     }
 }
@@ -650,6 +889,9 @@ pub fn run(seed: u64, thorough: bool) -> u64 {
         round += 1;
         if round >= if thorough { 40 } else { 1 } { break; }
     }
+    let (n0, t0) = (st.n, Instant::now());
+    corrupt_and_recorded(&mut st, &fx, &mt, &ct, thorough, &mut rng);
+    if std::env::var("VX_C20_DEBUG").is_ok() { eprintln!("corrupt record / recorded error records: {} runs in {:?}", st.n - n0, t0.elapsed()); }
     // KNOWN FINDING probe (deterministic): on a current-thread runtime the in-memory dataset is forwarded completely before the engine runs,
     // Shutdown is queued right behind it, and every answer of the mock exchange arrives after the engine has stopped: the engine of a backtest
     // that places orders sees NONE of its fills (strict comparison with the fills of (dataset, k)), alone and concurrently alike
